@@ -48,12 +48,14 @@ func init() {
 	})
 	reg(&PropSpec{
 		ID: "C15", Cross: "z3-new", Prefix: "vh_C15_", Repeat: 30,
-		Quick:    Tier{Params: map[string]int{"exts": 1, "extras": 1, "name_len": 1, "sizes": 1, "any_shapes": 2, "vary": 0, "case_twin": 1, "payload_fork": 1}},
-		Thorough: Tier{Params: map[string]int{"exts": 1, "extras": 1, "name_len": 1, "sizes": 1, "any_shapes": 2, "vary": 0, "case_twin": 1, "payload_fork": 1}},
+		Quick:    Tier{Params: map[string]int{"exts": 1, "extras": 1, "name_len": 1, "sizes": 1, "any_shapes": 2, "vary": 0, "case_twin": 1, "payload_fork": 1, "ext_upper": 1}},
+		Thorough: Tier{Params: map[string]int{"exts": 1, "extras": 1, "name_len": 1, "sizes": 1, "any_shapes": 2, "vary": 0, "case_twin": 1, "payload_fork": 1, "ext_upper": 1}},
 		Bounds: []string{
 			"a second pointer step (description, type, name, $ref) on the Go value the first step returned, compared with the JSON form",
 			"per kind: the symbolic normal-form document of C01 is decoded; for every keyword of the kind and every symbolic member name (extension, its case twin, unknown keyword) used as a one-token pointer, jsonpointer.GetForToken on the typed value (real JSONLookup + name provider from SSA, M-reflect) is compared with the member of the value's own JSON encoding",
 			"responses: tokens default, 200, 404, 099, 600, 99",
+			"paths: tokens are the path names (\"/\" + one symbolic byte + digit: /~0, /~1, /%0, /{0 among them) and the extension name",
+			"ext_upper: the first byte of the top-level extension name is a solver variable over {x, X} for every kind except schema, swagger, operation, parameter (path count)",
 			"asserted direction: the JSON form has the member => the typed lookup succeeds with an equal value (a typed lookup that yields a zero value for an absent optional member is not an error)",
 		},
 		Outside:     []string{"multi-token pointers are covered by induction over the pointer (each step lands on a kind with its own harness); numeric tokens into arrays; $ref members (excluded by the property)"},
